@@ -5,7 +5,8 @@
       (so a key without sync entry has no dependents), and
     * a key in the `Transferred` state whose `transferred` entry is gone (released by its owner — the
       "stale Transferred" state) has no dependents.
-  Uses the hand-back wake-up of `release_self` (salsa 451fce7).
+  Uses the hand-back wake-up of `release_self` (salsa 451fce7; since e06010e only when the releasing
+  thread does not own the transfer target — otherwise the key keeps its flag and its `transferred` entry).
 -/
 import SalsaVerif.Proofs.SyncDGKeys
 
@@ -466,36 +467,52 @@ theorem claimStep_qinv {s0 s1 s' : State} {t k : Nat} {blk : Bool} {a : ClaimAns
 
 /-! ### `release_self` -/
 
-theorem releaseSelf_qinv {s s' : State} {k : Nat} (hq : QInv s) (h : releaseSelf s k = some s') :
+/-- `is_owner_of_transferred_query(k, t)` answers `true` exactly when
+    `thread_id_of_transferred_query(k, None)` is `Some(t)`. -/
+theorem isOwner_true_iff {s : State} {k t : Nat} :
+    isOwnerOfTransferredQuery s k t = some true ↔ threadIdOfTransferredQuery s k none = some (some t) := by
+  unfold isOwnerOfTransferredQuery
+  cases h : threadIdOfTransferredQuery s k none with
+  | none => simp
+  | some r => simp
+
+theorem isOwner_false_iff {s : State} {k t : Nat} :
+    isOwnerOfTransferredQuery s k t = some false ↔
+      ∃ r, threadIdOfTransferredQuery s k none = some r ∧ r ≠ some t := by
+  unfold isOwnerOfTransferredQuery
+  cases h : threadIdOfTransferredQuery s k none with
+  | none => simp
+  | some r => simp
+
+theorem releaseSelf_qinv {s s' : State} {t k : Nat} (hq : QInv s) (h : releaseSelf s t k = some s') :
     QInv s' := by
-  unfold releaseSelf at h
   cases hk : s.sync k with
-  | none => simp [hk] at h
+  | none => simp [releaseSelf, hk] at h
   | some st =>
-    simp only [hk] at h
     cases hct : st.claimedTwice with
     | false =>
-      simp only [hct, Bool.false_eq_true, if_false] at h
+      unfold releaseSelf at h
+      simp only [hk, hct, Bool.false_eq_true, if_false] at h
       apply releaseEntry_qinv hq (k := k) (r := .completed)
       simp [releaseEntry, hk, h]
     | true =>
-      simp only [hct, if_true] at h
-      cases haw : st.anyoneWaiting with
-      | false =>
-        simp only [haw, Bool.false_eq_true, if_false, Option.some.injEq] at h
-        subst h
-        have hk0 : s.qdeps k = [] := by
-          cases hqk : s.qdeps k with
-          | nil => rfl
-          | cons x xs =>
-            obtain ⟨st', h1, h2⟩ := hq.aw k (by simp [hqk])
-            rw [hk] at h1; cases h1; rw [haw] at h2; cases h2
+      rcases releaseSelf_handback_cases hk hct h with ⟨hc, rfl⟩ | ⟨_, _, h⟩
+      · -- quiet hand-back: no dependents, or the key keeps its flag and its `transferred` entry
         refine QInv_upd hq rfl rfl (fun _ _ => rfl) ?_ ?_
-        · intro hne; exact absurd hk0 hne
-        · intro _ _; exact hk0
-      | true =>
-        simp only [haw, if_true] at h
-        obtain ⟨q1, sy1, t1⟩ := unblockRuntimesBlockedOn_q h
+        · intro hne
+          obtain ⟨st', h1, h2⟩ := hq.aw k hne
+          rw [hk] at h1; cases h1; exact h2
+        · intro _ hn
+          rcases hc with haw | hown
+          · cases hqk : s.qdeps k with
+            | nil => rfl
+            | cons x xs =>
+              obtain ⟨st', h1, h2⟩ := hq.aw k (by simp [hqk])
+              rw [hk] at h1; cases h1; rw [haw] at h2; cases h2
+          · have := threadId_none_iff.2 t (isOwner_true_iff.mp hown)
+            simp only at this
+            rw [hn] at this; simp at this
+      · obtain ⟨q1, sy1, t1⟩ := unblockRuntimesBlockedOn_q h
         refine QInv_upd hq t1 sy1 ?_ ?_ ?_
         · intro k' hkk; rw [q1]; simp [upd_other _ _ _ _ hkk]
         · intro hne; rw [q1] at hne; simp at hne
